@@ -120,3 +120,10 @@ except montepy.errors.NumberConflictError:
     pass
 report("refused cell.geometry = g: dividers of g stay in cell.surfaces/complements, g points at the cell",
        has(c.surfaces, s9) or has(c.complements, p.cells[1]) or g._cell is c)
+# (17) a material / universe that is linked to ANOTHER problem (a deepcopy drags a hidden copy of the problem along)
+#      is assigned to a cell of this problem: it stays linked to the other problem, .cells walks the wrong cells
+p = read(); m2 = copy.deepcopy(p.materials[1]); m2._number.value = 7; p.cells[2].material = m2
+report("cell.material = deepcopy(member): material.cells does not yield the cell (walks the hidden copy)",
+       [id(x) for x in m2.cells] != [id(p.cells[2])])
+q = montepy.MCNP_Problem("other"); u9 = montepy.Universe(9); q.universes.append(u9); p.cells[1].universe = u9
+report("cell.universe = universe of another problem: universe.cells does not yield the cell", [id(x) for x in u9.cells] != [id(p.cells[1])])
